@@ -18,6 +18,7 @@
 from __future__ import annotations
 
 import collections
+import fractions
 import inspect
 import logging
 import math
@@ -817,7 +818,9 @@ class PartitionBulkIndexParamSource:
         )
 
         all_bulks = number_of_bulks(self.corpora, start_index, end_index, self.total_partitions, self.bulk_size)
-        self.total_bulks = math.ceil((all_bulks * self.ingest_percentage) / 100)
+        # calculate with the decimal number that the user has provided: in binary floating point 64.4% of 250 bulks are
+        # 161.00000000000003 bulks and we would ingest one bulk too many.
+        self.total_bulks = math.ceil(all_bulks * fractions.Fraction(str(self.ingest_percentage)) / 100)
 
     @property
     def percent_completed(self):
